@@ -116,7 +116,12 @@ def Sat_C04 (b : Buf) (op : Op) (out : Out) (post : Obs) : Bool :=
   | .readByte => if b.len < 1 then panicked && unchanged else !panicked
   | .readBytes n => if b.len < n then panicked && unchanged else !panicked
   | .pokeWrote _ n => if b.free < n then panicked && unchanged else !panicked
-  | .copyOnce .panic => if 0 < b.free then panicked && unchanged else (!panicked || unchanged)
+  | .copyOnce .panic =>
+    -- the reader is the caller's code: when it panics the unread bytes are intact and the buffer stays usable (the
+    -- indices may have moved if the method compacted before calling the reader, which C12 leaves open when the
+    -- free space is only in front of the unread bytes); a completely full buffer never reaches the reader
+    let intact := post.rd == b.readable && post.len == b.len && decide (post.ri ≤ post.wi) && decide (post.wi ≤ b.mem.length)
+    if 0 < b.free then panicked && intact else (!panicked || (intact && decide (0 < b.ri)))
   | .tryParse ops _ => if scriptPanics b ops then true else !panicked
   | _ => !panicked
 
